@@ -52,15 +52,6 @@ func isLiteralAttr(key string) bool {
 func escapeAttrValue(val string) string {
 	// Quick check: if the string contains &, check if it's an HTML entity reference
 	// If it is, it's likely already escaped and we shouldn't escape it again
-	if strings.Contains(val, "&") {
-		// Check for common HTML entity patterns like &amp; &quot; &#34; etc
-		// If we find them, assume it's already properly escaped
-		if strings.Contains(val, "&amp;") || strings.Contains(val, "&quot;") ||
-			strings.Contains(val, "&apos;") || strings.Contains(val, "&lt;") ||
-			strings.Contains(val, "&gt;") || strings.Contains(val, "&#") {
-			return val
-		}
-	}
 	// Otherwise, escape unescaped special characters
 	return html.EscapeString(val)
 }
@@ -124,9 +115,6 @@ func getIndent(indent int) string {
 func shouldEscapeTextNode(data string) bool {
 	// If the text contains HTML entity references like &lt; &amp; &#39; etc,
 	// it's likely from interpolation and already escaped
-	if strings.Contains(data, "&") && strings.Contains(data, ";") {
-		return false
-	}
 	// Check if text contains unescaped HTML special characters
 	return strings.ContainsAny(data, "<>&\"'")
 }
